@@ -1,10 +1,16 @@
 import CoclsModel.Proto
-import CoclsModel.Aggregator
-/-! Driver for C14: runs the generator-aggregator model on the harness input (grammar: harness/h_aggregator.cpp). -/
+import CoclsModel.AggregatorValues
+/-! Driver for C14: runs the generator-aggregator model (`Aggregator.lean` under the value / result layer
+`AggregatorValues.lean`) on the harness input (grammar: harness/h_aggregator.cpp). -/
 open Cocls Cocls.Proto Cocls.Agg
+open Cocls.AggV (Style Rep)
+
+abbrev VState := Cocls.AggV.State
+abbrev VCfg := Cocls.AggV.Cfg
+abbrev VOp := Cocls.AggV.Op
 
 inductive RawAct where
-  | y | a | t (e : Nat) | ar
+  | y | a | t (e : Nat) | ar | yl
   deriving DecidableEq, Inhabited
 
 structure RawScript where
@@ -14,6 +20,7 @@ structure RawScript where
 
 def parseAct (t : String) : Option RawAct :=
   if t == "y" then some RawAct.y
+  else if t == "yl" then some RawAct.yl
   else if t == "a" then some RawAct.a
   else if t == "ar" then some RawAct.ar
   else if t.startsWith "t" then (t.drop 1).toString.toNat?.map RawAct.t
@@ -39,7 +46,7 @@ def rawAt (r : RawScript) (p : Nat) : Option RawAct :=
   else r.cyc[(p - r.pre.size) % r.cyc.size]?
 
 def yieldsBefore (r : RawScript) (p : Nat) : Nat :=
-  ((List.range p).filter (fun i => rawAt r i == some RawAct.y)).length
+  ((List.range p).filter (fun i => rawAt r i == some RawAct.y || rawAt r i == some RawAct.yl)).length
 
 def mkScript (rs : Array RawScript) (k p : Nat) : Option Act :=
   match rs[k]? with
@@ -47,67 +54,96 @@ def mkScript (rs : Array RawScript) (k p : Nat) : Option Act :=
   | some r => match rawAt r p with
     | none => none
     | some RawAct.y => some (Act.yield ((k + 1) * 1000 + yieldsBefore r p))
+    | some RawAct.yl => some (Act.yield ((k + 1) * 1000 + yieldsBefore r p))
     | some RawAct.a => some Act.await
     | some RawAct.ar => some Act.awaitRead
     | some (RawAct.t e) => some (Act.throw e)
 
+def mkLval (rs : Array RawScript) (k p : Nat) : Bool :=
+  match rs[k]? with
+  | none => false
+  | some r => rawAt r p == some RawAct.yl
+
 structure Ctx where
-  cfg : Cfg
+  vcfg : VCfg
   argMode : Bool
   ok : Bool
 
+def Ctx.cfg (x : Ctx) : Cfg := x.vcfg.base
+
 def fuelOf (c : Cfg) (s : State) : Nat := 4 * (c.n + s.q.length) + 16
 
-def settleAll (c : Cfg) (s : State) : State := settle c s (fuelOf c s)
+/-- run the aggregator until it parks -/
+def settleV (c : VCfg) (s : VState) : Nat → VState
+  | 0 => s
+  | fuel + 1 => if running s.base then settleV c (Cocls.AggV.step c s Cocls.AggV.Op.agg) fuel else s
+
+def settleAll (c : VCfg) (s : VState) : VState := settleV c s (fuelOf c.base s.base)
 
 def pStr (c : Cfg) (s : State) : String :=
   if c.n = 0 then "p=-" else "p=" ++ ".".intercalate ((List.range c.n).map (fun k =>
     toString (s.pc k) ++ (match s.res k with | SRes.done | SRes.exc _ => "e" | _ => "")))
 
-/-- result of the access the consumer was waiting for, judged from the state after settling -/
-def resultStr (s0 s1 : State) : String :=
-  if s1.out.length > s0.out.length then
-    match s1.out[s0.out.length]? with
-    | some (_, v) => s!"v:{v}"
-    | none => "?"
-  else match s1.ag with
-    | Ag.done => "end"
-    | Ag.failed e => s!"exc:{e}"
-    | _ => "pending"
+def objStr : Option Nat → String
+  | some a => toString a
+  | none => "moved"
+
+def repStr : Rep → String
+  | Rep.val v => "v:" ++ objStr v
+  | Rep.ended => "end"
+  | Rep.exc e => s!"exc:{e}"
+
+/-- result of the access the consumer was waiting for: what the consumer learned, in its access style (`obs`) -/
+def resultStr (s0 s1 : VState) : String :=
+  match s1.obs[s0.obs.length]? with
+  | some (_, r) => repStr r
+  | none => "pending"
 
 def argStr : Option Nat → String
   | some a => toString a
   | none => "dead"
 
-/-- `a<k>=<arg>`: source `k` received an argument; `r<k>=<arg>`: source `k` fetched its argument again after an await -/
-def argEvents (x : Ctx) (s0 s1 : State) : List String :=
-  if !x.argMode then []
-  else (List.range x.cfg.n).flatMap (fun k =>
-    ((s1.got k).drop (s0.got k).length).map (fun a => s!"a{k}={a}")
-    ++ ((s1.late k).drop (s0.late k).length).map (fun p => s!"r{k}={argStr p.2}"))
+/-- `a<k>=<arg>`: source `k` received an argument; `r<k>=<arg>`: source `k` fetched its argument again after an await;
+`k<k>=<obj>`: source `k`, back from `co_yield x`, looked at the lvalue `x` it had yielded -/
+def argEvents (x : Ctx) (s0 s1 : VState) : List String :=
+  (List.range x.cfg.n).flatMap (fun k =>
+    (if !x.argMode then [] else
+      ((s1.base.got k).drop (s0.base.got k).length).map (fun a => s!"a{k}={a}")
+      ++ ((s1.base.late k).drop (s0.base.late k).length).map (fun p => s!"r{k}={argStr p.2}"))
+    ++ ((s1.kept k).drop (s0.kept k).length).map (fun p => s!"k{k}={objStr p.2}"))
+
+/-- after the destruction the owner of the yielded lvalues looks at those the parked sources never got back to -/
+def finalKept (x : Ctx) (s : VState) : List String :=
+  match s.base.ag with
+  | Ag.destroyed =>
+    (List.range x.cfg.n).flatMap (fun k =>
+      match Cocls.AggV.yieldedLval x.vcfg s.base k, s.base.res k with
+      | some _, SRes.val _ => [s!"k{k}={objStr (s.slot k)}"]
+      | _, _ => [])
+  | _ => []
 
 def sortStr (xs : List String) : List String := xs.mergeSort (fun a b => !(b < a))
 
-def line (x : Ctx) (head : String) (s0 s1 : State) (extra : List String) : String :=
-  withEvents (head ++ " " ++ pStr x.cfg s1) (sortStr (argEvents x s0 s1 ++ extra))
+def line (x : Ctx) (head : String) (s0 s1 : VState) (extra : List String) : String :=
+  withEvents (head ++ " " ++ pStr x.cfg s1.base) (sortStr (argEvents x s0 s1 ++ extra))
 
-def gotEvent (s0 s1 : State) : List String :=
-  if waiting s0 && !waiting s1 then ["got=" ++ resultStr s0 s1] else []
+def gotEvent (s0 s1 : VState) : List String :=
+  if waiting s0.base && !waiting s1.base then ["got=" ++ resultStr s0 s1] else []
 
 /-- resolve the listed sources one after the other (second thread), the aggregator running to its next park -/
-def helperResolve (c : Cfg) (s : State) (ks : List Nat) : State × Bool :=
-  ks.foldl (fun (acc : State × Bool) k =>
-    if acc.1.st k = SSt.inflight then (settleAll c (step c acc.1 (Op.resolve k)), acc.2)
+def helperResolve (c : VCfg) (s : VState) (ks : List Nat) : VState × Bool :=
+  ks.foldl (fun (acc : VState × Bool) k =>
+    if acc.1.base.st k = SSt.inflight then (settleAll c (Cocls.AggV.step c acc.1 (Cocls.AggV.Op.resolve k)), acc.2)
     else (acc.1, true)) (s, false)
 
 def lowestInflight (c : Cfg) (s : State) : Option Nat :=
   (List.range c.n).find? (fun k => s.st k = SSt.inflight)
 
-def settleEnd (c : Cfg) (s : State) : Nat → State
+def settleEnd (c : VCfg) (s : VState) : Nat → VState
   | 0 => s
-  | f + 1 => match lowestInflight c s with
+  | f + 1 => match lowestInflight c.base s.base with
     | none => s
-    | some k => settleEnd c (settleAll c (step c s (Op.resolve k))) f
+    | some k => settleEnd c (settleAll c (Cocls.AggV.step c s (Cocls.AggV.Op.resolve k))) f
 
 def isDestroyed (s : State) : Bool :=
   match s.ag with
@@ -125,58 +161,94 @@ def validKs (c : Cfg) (ws : List String) : Option (List Nat) :=
     | some k, some l => if k < c.n then some (k :: l) else none
     | _, _ => none) (some [])
 
+/-- access styles of the harness grammar: n next()/value(), i iterator, c co_await next(), and through the future of
+`gen()`: f co_await has_value(), w operator bool, x operator!, d `*val`, q `co_await val`, j sync()+value(); the capital
+letter = the same reading on a future that is re-used with `result_of` / `operator<<` -/
+def styleOf (ch : Char) : Option Style :=
+  match ch.toLower with
+  | 'n' => some Style.next
+  | 'i' => some Style.iter
+  | 'c' => some Style.awaitNext
+  | 'f' => some Style.futHas
+  | 'w' => some Style.futBool
+  | 'x' => some Style.futNot
+  | 'd' => some Style.futDeref
+  | 'q' => some Style.futAwait
+  | 'j' => some Style.futValue
+  | _ => none
+
+def styleOk (ch : Char) : Bool := "nicfwxdqjFWXDQJ".toList.contains ch
+
+/-- the style blocks the thread when the result is not there yet -/
+def blockingStyle (ch : Char) : Bool := "niwxdjWXDJ".toList.contains ch
+
+/-- an access made after the end: the reference styles find `done()`; `gen()` throws `no_more_values_exception`; after
+an exception `next()` throws it as well -/
+def afterEnd (s : State) (ch : Char) : Option String :=
+  match s.ag with
+  | Ag.done => some (match styleOf ch with
+      | some st => if st.isFut then "nomore" else "end"
+      | none => "end")
+  | Ag.failed _ => some "nomore"
+  | _ => none
+
 /-- `batch s:a …`: one consumer coroutine makes the accesses in a row.  The model runs every (re)charged source
 synchronously inside the charging step (`charge`), which is what the code does whether or not the consumer itself
 is a coroutine (`next_awt::subscribe` resumes the source handle directly), so a batch is just the sequence of accesses. -/
 def parseAcc (w : String) : Option (Char × Nat) :=
   match w.splitOn ":" with
   | [st, a] => match st.toList, a.toNat? with
-      | [ch], some n => if "nicfw".toList.contains ch then some (ch, n) else none
+      | [ch], some n => if styleOk ch then some (ch, n) else none
       | _, _ => none
   | _ => none
 
-def doBatch (x : Ctx) (s : State) (accs : List (Char × Nat)) : State × String :=
-  let c := x.cfg
-  let (s', rs) := accs.foldl (fun (acc : State × List String) (ca : Char × Nat) =>
+def doAccess (x : Ctx) (st : VState) (ch : Char) (a : Nat) (poll : Bool := false) : VState × String :=
+  match afterEnd st.base ch with
+  | some r => (st, r)
+  | none =>
+    let s1 := settleAll x.vcfg (Cocls.AggV.step x.vcfg st (Cocls.AggV.Op.next a ((styleOf ch).getD Style.next)))
+    let r := resultStr st s1
+    (s1, if blockingStyle ch && !poll && r == "pending" then "hang" else r)
+
+def doBatch (x : Ctx) (s : VState) (accs : List (Char × Nat)) : VState × String :=
+  let (s', rs) := accs.foldl (fun (acc : VState × List String) (ca : Char × Nat) =>
     let (st, rs) := acc
-    if waiting st then (st, rs) else
-    let blocking := ca.1 == 'n' || ca.1 == 'i' || ca.1 == 'w'
-    match st.ag with
-    | Ag.done => (st, rs ++ [if ca.1 == 'f' || ca.1 == 'w' then "nomore" else "end"])
-    | Ag.failed _ => (st, rs ++ ["nomore"])
-    | _ =>
-      let s1 := settleAll c (step c st (Op.next ca.2))
-      let r := resultStr st s1
-      (s1, rs ++ [if blocking && r == "pending" then "hang" else r])) (s, [])
+    if waiting st.base then (st, rs) else
+    let (s1, r) := doAccess x st ca.1 ca.2
+    (s1, rs ++ [r])) (s, [])
   (s', line x (" ".intercalate ("batch" :: rs)) s s' [])
 
 /-- one op line: returns new state and the output line -/
-def doOp (x : Ctx) (s : State) (ws : List String) : State × String :=
+def doOp (x : Ctx) (s : VState) (ws : List String) : VState × String :=
   let c := x.cfg
-  if !x.ok || isDestroyed s then (s, "bad-op") else
+  if !x.ok || isDestroyed s.base then (s, "bad-op") else
   match ws with
   | "batch" :: acc1 :: accs =>
     let parsed := (acc1 :: accs).map parseAcc
-    if waiting s || !parsed.all Option.isSome || (x.argMode && parsed.any (fun p => (p.map (·.1)) == some 'i'))
+    if waiting s.base || !parsed.all Option.isSome || (x.argMode && parsed.any (fun p => (p.map (·.1)) == some 'i'))
     then (s, "bad-op")
     else doBatch x s (parsed.filterMap id)
+  | ["pnext", st, a] =>
+    match st.toList, a.toNat? with
+    | [ch], some a =>
+      if waiting s.base || !blockingStyle ch || (x.argMode && ch == 'i') then (s, "bad-op") else
+      let (s1, r) := doAccess x s ch a
+      (s1, line x ("pnext " ++ r) s s1 [])
+    | _, _ => (s, "bad-op")
   | [op, a] =>
     match a.toNat? with
     | none => (s, "bad-op")
     | some a =>
       if op == "next" || op == "fnext" || op == "cnext" || (op == "inext" && !x.argMode) then
-        if waiting s then (s, "bad-op") else
-        match s.ag with
-        | Ag.done => (s, line x (op ++ (if op == "fnext" then " nomore" else " end")) s s [])
-        | Ag.failed _ => (s, line x (op ++ " nomore") s s [])
-        | _ =>
-          let s1 := settleAll c (step c s (Op.next a))
-          let r := resultStr s s1
-          (s1, line x (op ++ " " ++ (if (op == "next" || op == "inext") && r == "pending" then "hang" else r)) s s1 [])
+        if waiting s.base then (s, "bad-op") else
+        let ch := if op == "next" then 'n' else if op == "inext" then 'i' else if op == "cnext" then 'c' else 'j'
+        -- `fnext`: the future of `gen()` is polled (`ready()`, then `value()`), never waited for
+        let (s1, r) := doAccess x s ch a (op == "fnext")
+        (s1, line x (op ++ " " ++ r) s s1 [])
       else if op == "res" || op == "tres" then
         if a < c.n then
-          if s.st a = SSt.inflight then
-            let s1 := settleAll c (step c s (Op.resolve a))
+          if s.base.st a = SSt.inflight then
+            let s1 := settleAll x.vcfg (Cocls.AggV.step x.vcfg s (Cocls.AggV.Op.resolve a))
             (s1, line x op s s1 (gotEvent s s1))
           else (s, line x "bad-op" s s [])
         else (s, "bad-op")
@@ -191,41 +263,40 @@ def doOp (x : Ctx) (s : State) (ws : List String) : State × String :=
   | "cdestroy" :: ks => doD x s "cdestroy" ks
   | _ => (s, "bad-op")
 where
-  doB (x : Ctx) (s : State) (a : Nat) (ks : List String) : State × String :=
+  doB (x : Ctx) (s : VState) (a : Nat) (ks : List String) : VState × String :=
     let c := x.cfg
     match validKs c ks with
     | none => (s, "bad-op")
     | some ks =>
-      if waiting s then (s, "bad-op") else
-      match s.ag with
+      if waiting s.base then (s, "bad-op") else
+      match s.base.ag with
       | Ag.done => (s, line x "bnext end" s s [])
       | Ag.failed _ => (s, line x "bnext nomore" s s [])
       | _ =>
-        let s1 := settleAll c (step c s (Op.next a))
-        let (s2, bad) := helperResolve c s1 ks
+        let s1 := settleAll x.vcfg (Cocls.AggV.step x.vcfg s (Cocls.AggV.Op.next a Style.next))
+        let (s2, bad) := helperResolve x.vcfg s1 ks
         let r := resultStr s s2
         (s2, line x ("bnext " ++ (if r == "pending" then "hang" else r)) s s2 (if bad then ["bad-helper"] else []))
-  doD (x : Ctx) (s : State) (op : String) (ks : List String) : State × String :=
+  doD (x : Ctx) (s : VState) (op : String) (ks : List String) : VState × String :=
     let c := x.cfg
     match validKs c ks with
     | none => (s, "bad-op")
     | some ks =>
-      if waiting s then (s, "bad-op") else
-      let s1 := settleAll c (step c s (Op.destroy (op == "cdestroy")))
-      let (s2, bad) := helperResolve c s1 ks
-      (s2, line x (op ++ " " ++ account s2) s s2 (if bad then ["bad-helper"] else []))
+      if waiting s.base then (s, "bad-op") else
+      let s1 := settleAll x.vcfg (Cocls.AggV.step x.vcfg s (Cocls.AggV.Op.destroy (op == "cdestroy")))
+      let (s2, bad) := helperResolve x.vcfg s1 ks
+      (s2, line x (op ++ " " ++ account s2.base) s s2 ((if bad then ["bad-helper"] else []) ++ finalKept x s2))
 
-def doEnd (x : Ctx) (s : State) : String :=
-  let c := x.cfg
-  if !x.ok || isDestroyed s then "end" else
-  let s1 := settleEnd c s 1000
+def doEnd (x : Ctx) (s : VState) : String :=
+  if !x.ok || isDestroyed s.base then "end" else
+  let s1 := settleEnd x.vcfg s 1000
   let ev := gotEvent s s1
-  if waiting s1 then line x "end" s s1 (ev ++ ["unsettled"])
+  if waiting s1.base then line x "end" s s1 (ev ++ ["unsettled"])
   else
-    let s2 := settleAll c (step c s1 (Op.destroy false))
-    line x ("end " ++ account s2) s s2 ev
+    let s2 := settleAll x.vcfg (Cocls.AggV.step x.vcfg s1 (Cocls.AggV.Op.destroy false))
+    line x ("end " ++ account s2.base) s s2 (ev ++ finalKept x s2)
 
-partial def loop (lines : Array String) (i : Nat) (st : Option (Ctx × State)) : IO Unit := do
+partial def loop (lines : Array String) (i : Nat) (st : Option (Ctx × VState)) : IO Unit := do
   if h : i < lines.size then
     let ws := words lines[i]
     match ws, st with
@@ -236,7 +307,9 @@ partial def loop (lines : Array String) (i : Nat) (st : Option (Ctx × State)) :
         let ok := rs.length == n && rs.all Option.isSome
         let arr : Array RawScript := (rs.map (fun r => r.getD {})).toArray
         let cfg : Cfg := { n := n, script := mkScript arr }
-        loop lines (i+1) (some ({ cfg := cfg, argMode := mode == "a" || mode == "r", ok := ok }, Agg.init))
+        let vcfg : VCfg := { base := cfg, lval := mkLval arr }
+        loop lines (i+1) (some ({ vcfg := vcfg, argMode := mode == "a" || mode == "r" || mode == "t", ok := ok },
+                                Cocls.AggV.init))
     | ["end"], some (x, s) =>
         IO.println (doEnd x s)
         loop lines (i+1) none
